@@ -116,7 +116,7 @@ def cases(draw, convs=S.ALL_CONVS, unmarked=False):
         nt = draw(st.integers(1, 3))
         extra[tdim] = nt
         spec["time"] = {"name": tname, "dim": tdim, "units": "days since 1990-01-01 00:00:00",
-                        "values": list(range(nt))}
+                        "values": list(range(nt)), "bounds": draw(st.integers(0, 2)) == 0}
     nuisance = draw(st.booleans())
     if nuisance:
         extra["n"] = 2
